@@ -123,6 +123,17 @@ fn main() {
                 writeln!(out, "{}", lp::lpexport_event(c)).unwrap();
             }
         }
+        // limits --cases F : solve_milp_lp_problem_with under time limits and gaps (C15)
+        "limits" => {
+            let cases = read_cases(&arg(&args, "--cases").expect("--cases"));
+            for c in &cases {
+                let mut evs = vec![];
+                lp::limits_events(c, &mut evs);
+                for ev in evs {
+                    writeln!(out, "{}", ev).unwrap();
+                }
+            }
+        }
         _ => {
             eprintln!("usage: rv <lin> ...");
             std::process::exit(2);
